@@ -218,7 +218,10 @@ impl C01 {
             if r1 != b.id() || r2 != a.id() || r3 != a.id() {
                 return Ok("honest-remote-id-mismatch".to_string());
             }
-            // now B's id at A's address
+            // B goes offline (the dialer still remembers B's own addresses from the earlier
+            // session and would otherwise legitimately reach the real B); now B's id at A's address
+            b.close().await;
+            tokio::time::sleep(Duration::from_millis(50)).await;
             let out = match tokio::time::timeout(Duration::from_secs(6), dialer.connect(addr_of(&a, b.id()), ALPN)).await {
                 Err(_) => "refused".to_string(),
                 Ok(Err(_)) => "refused".to_string(),
@@ -226,11 +229,13 @@ impl C01 {
             };
             dialer.close().await;
             a.close().await;
-            b.close().await;
             Ok(out)
         });
         match res {
             Err(e) => Exec { infra: Some(e), ..Default::default() },
+            // reaching an endpoint that really holds the dialed key is correct authentication,
+            // just not the situation this scenario wants to set up
+            Ok(out) if out == "established-with-holder-of-dialed-key?" => Exec { infra: Some("the holder of the dialed key was still reachable".into()), ..Default::default() },
             Ok(out) => {
                 if out != "refused" {
                     ex.violation("wrong-key-connected-after-resumption", format!("after earlier sessions, a dial of B's id that reached A ended: {out}"));
